@@ -213,6 +213,10 @@ type c10Rule struct {
 	T         c10Target
 	Last      int
 	Uncertain bool // a call on the rule failed / was in flight when the process stopped: may have gone either way
+	// LiveBlocked: an Unblock call on a definitely blocked rule RETURNED AN ERROR. No successful unblock has ended the
+	// block, so in this process the rule stays in force ("while ... is blocked"); what the datastore holds is uncertain
+	// (Uncertain is set as well). Cleared by the next successful call on the rule and by a restart.
+	LiveBlocked bool
 }
 
 type c10Model struct {
@@ -233,7 +237,7 @@ func (m *c10Model) rule(t c10Target) *c10Rule {
 // Returned: the call returned success.
 func (m *c10Model) Returned(t c10Target, block bool) {
 	r := m.rule(t)
-	r.Uncertain = false
+	r.Uncertain, r.LiveBlocked = false, false
 	if block {
 		r.Last = c10Blocked
 	} else {
@@ -241,11 +245,21 @@ func (m *c10Model) Returned(t c10Target, block bool) {
 	}
 }
 
-// NotReturned: the call returned an error or the process stopped inside it.
-func (m *c10Model) NotReturned(t c10Target, block bool) {
+// Restarted: a new process knows nothing about calls that failed in the old one.
+func (m *c10Model) Restarted() {
+	for _, r := range m.rules {
+		r.LiveBlocked = false
+	}
+}
+
+// NotReturned: the call returned an error (returnedError) or the process stopped inside it.
+func (m *c10Model) NotReturned(t c10Target, block bool, returnedError bool) {
 	r := m.rule(t)
 	if r.Uncertain {
 		return
+	}
+	if returnedError && !block && r.Last == c10Blocked {
+		r.LiveBlocked = true
 	}
 	switch {
 	case block && r.Last == c10Blocked: // blocked either way
@@ -298,7 +312,7 @@ func (m *c10Model) ipVerdict(a netip.Addr) (must *c10Rule, mustNot *c10Rule) {
 			continue
 		}
 		switch {
-		case r.Last == c10Blocked && !r.Uncertain:
+		case (r.Last == c10Blocked && !r.Uncertain) || r.LiveBlocked:
 			if must == nil {
 				must = r
 			}
@@ -318,7 +332,11 @@ func (m *c10Model) ipVerdict(a netip.Addr) (must *c10Rule, mustNot *c10Rule) {
 
 func (m *c10Model) peerVerdict(p peer.ID) (must *c10Rule, mustNot *c10Rule) {
 	for _, r := range m.sorted() {
-		if r.T.Kind != c10KPeer || r.T.Peer != p || r.Uncertain {
+		if r.T.Kind != c10KPeer || r.T.Peer != p || (r.Uncertain && !r.LiveBlocked) {
+			continue
+		}
+		if r.LiveBlocked {
+			must = r
 			continue
 		}
 		switch r.Last {
@@ -448,6 +466,8 @@ func (au *c10Audit) Check(cg *BasicConnectionGater, m *c10Model, when string, co
 			listed = ls[r.T.pfx]
 		}
 		switch {
+		case r.LiveBlocked && !listed:
+			bad("blocked-rule-not-listed/"+[]string{"peer", "addr", "subnet"}[r.T.Kind], "%s is blocked (call returned success) and the only unblock since returned an error, but ListBlocked* does not contain it", r.T.Name)
 		case r.Uncertain:
 			count(fmt.Sprintf("in-flight-listed=%v", listed))
 		case r.Last == c10Blocked && !listed:
